@@ -120,7 +120,10 @@ def run_check(prop, tier, seed, count=None, workers=None, wall_cap=None):
     print("pmsim check %s tier=%s VERIF_SEED=%d scenarios=%d repo=%s" % (prop, tier, seed, count, pool.REPO), flush=True)
     tasks = [(prop, seed, index, tier) for index in range(count)]
     try:
-        results, capped = pool.run_parallel("pmsim.driver", "scenario_task", tasks, workers=workers, wall_cap=wall_cap)
+        # PMSIM_STOP_AT_FIRST=1 (tools/ campaigns against changed trees only, never in a
+        # registered command): stop submitting scenarios after the first violation
+        first_hit = (lambda outcome: bool((outcome.get("ok") or {}).get("violations"))) if os.environ.get("PMSIM_STOP_AT_FIRST") else None
+        results, capped = pool.run_parallel("pmsim.driver", "scenario_task", tasks, workers=workers, wall_cap=wall_cap, stop_when=first_hit)
     except HarnessError as this_error:
         print("HARNESS-ERROR %s" % this_error)
         return 2
@@ -171,6 +174,8 @@ def run_check(prop, tier, seed, count=None, workers=None, wall_cap=None):
         shrink_jobs.append((key, entries))
     # shrink up to 6 distinct unlisted violation keys (smallest index each)
     to_shrink = [("pmsim.driver", "shrink_task", (prop, entries[0][1], key)) for key, entries in shrink_jobs[:6]]
+    if os.environ.get("PMSIM_STOP_AT_FIRST"):
+        to_shrink = []
     shrunk = {}
     if to_shrink:
         try:
